@@ -43,6 +43,8 @@ type EnvCfg struct {
 	ClientIP      string
 	Port          int
 	HintMandatory bool
+	// Both: the server listens on the port with both transports (clients use the one selected by UDP).
+	Both bool
 	// PreMTUC/PreMTUS: if non-zero the endpoints are first configured with
 	// this MTU and then re-configured with MTUC/MTUS (a profile edit/reload).
 	PreMTUC, PreMTUS int
@@ -158,7 +160,13 @@ func NewEnv(cfg EnvCfg) (*Env, error) {
 	if cfg.PreMTUS != 0 {
 		e.Srv.SetEndpoints([]protocol.UnderlayProperties{protocol.NewUnderlayProperties(cfg.PreMTUS, cfg.transport(), cfg.serverAddr(), nil)})
 	}
-	e.Srv.SetEndpoints([]protocol.UnderlayProperties{protocol.NewUnderlayProperties(cfg.MTUS, cfg.transport(), cfg.serverAddr(), nil)})
+	eps := []protocol.UnderlayProperties{protocol.NewUnderlayProperties(cfg.MTUS, cfg.transport(), cfg.serverAddr(), nil)}
+	if cfg.Both {
+		other := cfg
+		other.UDP = !cfg.UDP
+		eps = append(eps, protocol.NewUnderlayProperties(cfg.MTUS, other.transport(), other.serverAddr(), nil))
+	}
+	e.Srv.SetEndpoints(eps)
 	if err := e.Srv.Start(); err != nil {
 		return nil, err
 	}
